@@ -89,6 +89,12 @@ impl Watch {
             g.1.push_str(case);
         }
     }
+    /// Marks a worker as finished: a finished worker makes no progress and must not be mistaken for a hung one.
+    pub fn finish(&self, slot: usize) {
+        if let Ok(mut g) = self.slots[slot].lock() {
+            g.0 = 0;
+        }
+    }
     pub fn spawn_monitor(self: &Arc<Self>, limit_s: u64) {
         let w = Arc::clone(self);
         std::thread::spawn(move || {
